@@ -494,6 +494,73 @@ theorem C07_HeaderCsv_separator_counterexample :
     readCells (metaCells true [("k", "v: w")]) = some [("k", "v")] := by
   refine ⟨by decide +kernel, by decide +kernel⟩
 
+/-- Round 6 (cross-talk between the members of one series).  In the header block of a CSV file that several
+    collections share, the column of member `i` is that member's OWN CSV strings under the layout flag; the
+    flag (one metadata item per row / one joined row) is computed from the metadata SIZES of the members and
+    is the only thing they share - no sibling's keys, data type or unit enter the column. -/
+theorem C07_csv_column_is_members_own (num : Option Num → String) (descr : Option (List (Key × PyVal)) → String)
+    (hs : List CsvHdr) (i : Nat) (hi : i < hs.length) :
+    (csvColumns num descr hs)[i]'(by simpa [csvColumns] using hi) =
+      CsvHdr.write num descr (csvLayout (hs.map (·.md.length))) hs[i] :=
+  csvColumns_getElem num descr hs i hi
+
+/-- Round 6.  A series of headers (default-named standard data types, text metadata inside the guard
+    `SplitsBack`) written side by side into one CSV header block reads back, column by column, to the series
+    itself: in number, in order, and every member with its own metadata - whatever the metadata sizes and
+    keys of the members are (same size and other keys, other sizes, none).  Token level (as
+    C07_HeaderCsv_partial); the transposition `zip(*columns)` / `zip(*rows)` of the file is compared
+    (correspondence `csv_series`), not modelled; the value and datetime cells are not part of the statement. -/
+theorem C07_csv_series_partial (num : Option Num → String) (descr : Option (List (Key × PyVal)) → String)
+    (hs : List CsvHdr)
+    (h : ∀ x ∈ hs, ∃ cls, x.dataType = .std cls Option.none ∧ Gen.DataTypes.names.contains cls = true ∧
+      titleKey (spaced cls) = cls ∧ SplitsBack x.md) :
+    csvReadColumns (csvColumns num descr hs) = some hs := by
+  apply mapM_read_write
+  intro x hx
+  obtain ⟨cls, hd, hc, ht, hsb⟩ := h x hx
+  obtain ⟨d, u, md⟩ := x
+  simp only at hd hsb
+  subst hd
+  exact CsvHdr.law num descr _ cls u md hc ht hsb
+
+/-- Non-vacuity, in the shape "two members with as many items under other keys": the hypotheses hold
+    (evaluated at character level), so both members read back with their own keys. -/
+example : csvReadColumns (csvColumns (fun _ => "") (fun _ => "")
+    [⟨.std "Temperature" Option.none, "C", [("type", "Zone Air"), ("Zone", "LIVING")]⟩,
+     ⟨.std "Temperature" Option.none, "C", [("type", "Chiller"), ("System", "Plant 1")]⟩]) =
+    some [⟨.std "Temperature" Option.none, "C", [("type", "Zone Air"), ("Zone", "LIVING")]⟩,
+          ⟨.std "Temperature" Option.none, "C", [("type", "Chiller"), ("System", "Plant 1")]⟩] := by
+  apply C07_csv_series_partial
+  intro x hx
+  simp only [List.mem_cons, List.mem_nil_iff, or_false] at hx
+  rcases hx with rfl | rfl
+  · exact ⟨"Temperature", rfl, by decide +kernel, by decide +kernel,
+      ⟨fun _ => by decide +kernel, by decide +kernel, by decide +kernel, by decide +kernel⟩⟩
+  · exact ⟨"Temperature", rfl, by decide +kernel, by decide +kernel,
+      ⟨fun _ => by decide +kernel, by decide +kernel, by decide +kernel, by decide +kernel⟩⟩
+
+#guard (csvColumns (fun _ => "") (fun _ => "")
+    [⟨.std "Temperature" Option.none, "C", [("type", "Zone Air"), ("Zone", "LIVING")]⟩,
+     ⟨.std "Temperature" Option.none, "C", [("type", "Chiller"), ("System", "Plant 1")]⟩]) =
+  [["Temperature", "C", "type: Zone Air", "Zone: LIVING"], ["Temperature", "C", "type: Chiller", "System: Plant 1"]]
+
+/-- Round 6, recorded finding C07-csv-one-period-per-file (the model follows the code): the CSV file of a series
+    has ONE analysis-period cell, the first member's.  Two aligned members whose headers name different periods
+    (possible for every non-continuous class: alignment looks at class and datetimes only) both come back under
+    the first member's period - the second one is not the header that was written. -/
+theorem C07_csv_series_period_counterexample :
+    let ap1 : AP := ⟨1, 1, 0, 3, 31, 23, 1, false⟩
+    let ap2 : AP := ⟨1, 1, 0, 6, 30, 23, 1, false⟩
+    let h (a : AP) : Hdr := ⟨.std "Temperature" Option.none, "C", a, []⟩
+    ap1 ≠ ap2 ∧
+    (Hdr.csvSeries [h ap1, h ap2]).map (fun r => r.2.map (fun o => o.map (·.ap))) = some [some ap1, some ap1] := by
+  refine ⟨by decide, by decide +kernel⟩
+
+/-- The layout flag: per-row exactly when all members have the same number of items and that number is not 1. -/
+theorem C07_csv_layout (n : Nat) (r : List Nat) :
+    csvLayout (n :: r) = true ↔ (∀ m ∈ r, m = n) ∧ n ≠ 1 := by
+  simp [csvLayout]
+
 /-- The text form of a *generic* data type never reads back (`GenericType.from_string` hands the
     eight `' | '`-separated fields to the constructor as text, which rejects text for `min`);
     hence neither do the CSV strings of a header or collection with a generic data type.
